@@ -487,7 +487,13 @@ func c13RunConc(c *mon.Ctx, seed uint64) {
 		}
 
 		cond := r.U64() | 1
+		self := i%4 == 1
 		jobs = append(jobs, func() string {
+			// every fourth job first compares an object with itself (one pointer on both sides)
+			if self && (s.LessOrEqual(s) != 1 || s.Equal(s) != 1 || t.LessOrEqual(t) != 1) {
+				return fmt.Sprintf("comparison of %x with itself (same object)", a)
+			}
+
 			if s.LessOrEqual(t) != le || s.Equal(t) != eq || s.IsZero() != (a.Sign() == 0) || s.IsOne() != (a.Cmp(big.NewInt(1)) == 0) {
 				return fmt.Sprintf("comparison of %x and %x", a, b)
 			}
